@@ -1,6 +1,7 @@
 package main
 
 import (
+	"encoding/json"
 	"flag"
 	"fmt"
 	"os"
@@ -228,7 +229,20 @@ func cmdMemfsSelfcheck(args []string) {
 	repo := fs.String("repo", "/repo", "repository")
 	out := fs.String("out", "/verif/out/memfs-selfcheck", "output dir")
 	only := fs.String("fn", "", "only this operation")
+	knownPath := fs.String("known", "/verif/known_findings.json", "known findings: a confirmed replay of a listed obligation is expected")
 	fs.Parse(args)
+	var known KnownFile
+	if b, err := os.ReadFile(*knownPath); err == nil {
+		_ = json.Unmarshal(b, &known)
+	}
+	isKnown := func(name string) bool {
+		for _, kf := range known.Findings {
+			if kf.Obligation == name {
+				return true
+			}
+		}
+		return false
+	}
 	eng, err := loadEngine(*repo)
 	if err != nil {
 		fmt.Fprintln(os.Stderr, err)
@@ -262,7 +276,11 @@ func cmdMemfsSelfcheck(args []string) {
 			}
 			fmt.Printf("%-10s %-28s %-16s %s\n", op, en.Label, v, truncate(line, 220))
 			if v == "confirmed" {
-				bad++
+				if isKnown(o.Name()) {
+					fmt.Printf("           (known finding: the recorded input class replays)\n")
+				} else {
+					bad++
+				}
 			}
 		}
 	}
